@@ -133,6 +133,38 @@ CLAIMS = {
          'x 4 cores (thorough also 2 x 2), <= 3 events (thorough 4), scattered mode; '
          'named environments and raptor forwarding not exercised here.',
     design='4/C04'),
+ 'C07': dict(
+    text='Bounded model checking of the real Popen executor by symbolic execution: the '
+         'methods run by the component thread (work/_handle_task/_launch_task), the '
+         'process watcher (_watch/_check_running), the control thread '
+         '(_control_cb/control_cb/cancel_task/is_canceled) and a second canceller are '
+         'turned into coroutines by an AST pass over the current source (yield before '
+         'every statement touching shared state, locks made cooperative; validated '
+         'against the plain methods on 54 sequential scenarios on every run) and run '
+         'under a symbolic schedule with a context bound, a symbolic process-exit '
+         'moment, exit code, cancel presence and launch fault point; the advance/'
+         'publish trace must show AGENT_EXECUTING once, exactly one hand-over with '
+         'outcome and exactly one unschedule request per task.',
+    note='Trusted: CrossHair/z3 path exhaustion; statement-level atomicity (GIL), '
+         'pre-emption only at statements touching shared state; <= 2 pre-emptions '
+         '(quick: second within 8 steps; 1 for the launch harness); fake process / '
+         'os.killpg / script writers / find_launcher; faults after spawn, the '
+         '_to_watcher loop itself (a second cancel_task caller stands in for it) and '
+         'the NOOP/Flux/Dragon executors are outside.',
+    design='4/C07, 3.1'),
+ 'C08': dict(
+    text='Bounded symbolic execution of the real cancel paths at the three places a '
+         'request can meet a task on the pilot: component intake (_control_cb + '
+         'work_cb + is_canceled), the sliced scheduler loop of C04 (cancel request at a '
+         'symbolic position in an arrival/completion history) and the Popen coroutines '
+         'of C07 with a named task and a bystander under a symbolic schedule.  Each '
+         'history is run twice, with and without the request: the bystander must end '
+         'up with the same reports / hand-over and keep its resources, the named task '
+         'is canceled exactly once unless already finished.',
+    note='Trusted: as C04 and C07. Bounds: <= 3 tasks, 1 node x 4 cores, <= 3 events, '
+         '<= 2 pre-emptions (quick 1); client-side TaskManager.cancel_tasks message '
+         'construction and the tmgr-side components are outside.',
+    design='4/C08'),
 }
 
 NOT_YET = 'check not built yet in this session (see DESIGN.md section 4 for the plan)'
